@@ -32,7 +32,7 @@ def result_prop(sweep, rule, expl, extra_tb=(), nontrivial=nt_parallel, cmp=RESU
     return {
         # the sweep, the source battery, and a scaled-down repeat of the sweep with the process
         # confined to one CPU (available_parallelism() == 1: every runner has a single worker)
-        "modes": [["sweep", sweep, "{seed}", "{tier}"]] + ([["sources", "{seed}", sweep]] if sweep in ("C01", "C02", "C03", "C04", "C06", "C07", "C10", "C13") else []) + ([["taskset=0", "sweep", sweep, "{seed}9", "quick"]] if sweep in ("C01", "C02", "C03", "C04", "C05", "C06", "C07", "C10") else []),
+        "modes": [["sweep", sweep, "{seed}", "{tier}"]] + ([["sources", "{seed}", sweep]] if sweep in ("C01", "C02", "C03", "C04", "C06", "C07", "C09", "C10", "C13") else []) + ([["taskset=0", "sweep", sweep, "{seed}9", "quick"]] if sweep in ("C01", "C02", "C03", "C04", "C05", "C06", "C07", "C10") else []),
         "compare": cmp,
         "nontrivial": nontrivial,
         "rule": rule,
